@@ -115,6 +115,9 @@ def run(ctx):
     with Pool(16) as pool:
         obs = pool.map(O.Safe(_observe), jobs, chunksize=1)
     obs, jobs = O.split_raised(ctx, 'C07', obs, jobs, 'harness.props.C07._observe')
+    if len(obs) < 6:        # (nearly) every observation raised: the violations are recorded, there is no table left to judge
+        ctx.exhaustive = False
+        return
     ctx.extra['max_residual_over_bound_density'] = max(o['ratio'] for o in obs if np.isfinite(o['ratio']))
     recs = [{k: v for k, v in o.items() if k != 'ratio'} for o in obs]
     verdict = O.run_laws(ctx, 'DerivLaws', 'DerivLaws', recs)
